@@ -32,6 +32,9 @@ RULE = ('Edit histories over the C03 op alphabet (set/del by name, index, VARARG
         'ids strictly increase and are globally unique; direct edits are attributed to this file; '
         'suspended ops add no entry. Threads: 2-4 free-running threads editing distinct configs. '
         'Non-trivial: >=3 state-changing ops; distinct = (callable, op sequence).')
+RULE_ADDITIONS = (' Added by the rounds of seeded changes (DESIGN 9.7): ' +
+                  'entry-under-wrong-key:set_tags-by-index | history/tag entry under raw int | fix')
+RULE = RULE + RULE_ADDITIONS
 ASSUMPTIONS = [
     'tag edits through fdl.add_tag etc. are attributed by fiddle to tagging.py and are not '
     'judged for the location clause',
